@@ -220,11 +220,15 @@ def is_payload(m, e):
             continue
         break
     # the payload local's definition is the Ok payload of the outer call
-    d = an.unique_def(m.payload_local)
+    d = getattr(m, "payload_def", None) or an.unique_def(m.payload_local)
     if d is None:
         return False
     dexpr = an.rvalue_expr(d[2].rv, d[0], d[1])
     if same_value(cur, dexpr):
+        return True
+    # the current value of the cursor local itself (a cursor that is stepped by re-assignment has several definitions)
+    cs = strip(cur)
+    if cs.k == "mutated" and cs.a[1] in getattr(m, "cursor_chain", []):
         return True
     # a later cursor of the chain (the slice handed on by value) denotes the same payload
     from kernel import unmut
@@ -240,8 +244,7 @@ def leaf_class(m, cl):
     if len(kinds) == 2 and kinds[0] == ("HEADER",) and kinds[1] == ("ADVANCE",):
         hdr_ev, adv_ev = cl[0][2], cl[1][2]
         hexpr = an.call_expr(hdr_ev["term"], hdr_ev["bb"])
-        t = adv_ev["term"]
-        amount = strip(an.operand_expr(t.args[1], adv_ev["bb"], adv_ev["idx"]))
+        amount = m.advance_amount(adv_ev)
         if amount.k == "field" and amount.a[1] == "payload_length":
             src = ok_payload(strip(amount.a[0]))
             if src is not None and same_value(src, hexpr) and an.cfg.dominates(hdr_ev["bb"], adv_ev["bb"]):
